@@ -393,9 +393,25 @@ def annotation_evaluated(rep, repo, mod):
 
     shapes = []
 
+    class DRec(minieval.Rec):
+        """the delay array: records its stores; `.transpose(3, 0, 1, 2)` is the method spelling of np.moveaxis(a, -1, 0) for four axes"""
+        _kv_array = True
+        _kv_methods = ('transpose',)
+        _kv_attrs = ()
+
+        def transpose(self, *axes):
+            if len(axes) == 1 and isinstance(axes[0], (tuple, list)):
+                axes = tuple(axes[0])
+            if tuple(axes) == (3, 0, 1, 2):
+                shapes.append(('moveaxis', self is (self._store[0] if self._store else None), -1, 0))
+                return ('moved', self)
+            shapes.append(('transpose', tuple(axes)))
+            return ('transposed', self)
+
     def np_ns(store):
         def zeros(shape):
-            r = minieval.Rec()
+            r = DRec()
+            r._store = store
             store.append(r)
             shapes.append(('zeros', minieval.freeze(shape)))
             return r
